@@ -59,6 +59,13 @@ def drive(rec):
         return t
     t["ops"] = [int(s.integer_code) for s in cr.space_group.symmetry_operations]
     off = False
+    if len(rec["asym"]) % 3 == 0:
+        # a crystal that was exported (POSCAR, CIF) before anybody asked for its molecules
+        for use in (cr.to_poscar_string, cr.to_cif_string):
+            try:
+                use()
+            except Exception:
+                pass
     if rec.get("bond_tolerance", 0.4) != 0.4 and len(rec["asym"]) % 2 == 0:
         # a caller who asks for the molecules straight away (the connectivity is then computed on their behalf)
         try:
@@ -106,6 +113,18 @@ def drive(rec):
             t["unique"].append({"atoms": atoms})
         for k, m in enumerate(cr.unit_cell_molecules()):
             t["ucmols"][k]["idx"] = int(m.properties.get("asym_mol_idx", -1)) + 1
+        # other questions asked of the crystal (neighbouring molecules, supercells, exports) leave its molecules where they are
+        import numpy as np
+        before = [np.array(m.positions, copy=True) for m in cr.unit_cell_molecules()]
+        for use in (lambda: cr.molecular_shell(mol_idx=0, radius=3.0), lambda: cr.as_P1_supercell((2, 1, 1)),
+                    lambda: cr.to_translational_symmetry((1, 2, 1)), lambda: cr.to_poscar_string(), lambda: cr.molecule_environments(radius=3.0)):
+            try:
+                use()
+            except Exception:
+                pass
+        after = cr.unit_cell_molecules()
+        if len(after) != len(before) or any(not np.array_equal(np.asarray(m.positions), b) for m, b in zip(after, before)):
+            t["exc_unique"] = "MoleculesMovedByLaterCalls"
     except Exception as e:
         t["exc_unique"] = type(e).__name__
     t["off"] = bool(off)
@@ -114,10 +133,73 @@ def drive(rec):
     return t
 
 
+def gen_chain(rng, row):
+    """A zig-zag carbon chain of 20-26 atoms in P1 / P-1, running at an angle to a short (5 A) cell edge so that it extends
+    over several cell lengths along -a from its first-listed atom; neighbouring chains at least 2.6 A apart."""
+    import math
+    import numpy as np
+    n = 48
+    for _ in range(200):
+        la, lb, lc = rng.uniform(4.8, 5.6), rng.uniform(11.0, 14.0), rng.uniform(32.0, 38.0)
+        gram = [[int(round(la * la * 4)), 0, 0], [0, int(round(lb * lb * 4)), 0], [0, 0, int(round(lc * lc * 4))]]
+        u, u2m = 0.5, 250000
+        s2 = u * u / (n * n)
+        cand = np.array([(a, 0, c) for a in range(-14, 0) for c in range(0, 4)], dtype=np.int64)
+        d2 = xtal._gdot(gram, cand) * s2
+        steps = cand[(d2 >= 1.25 ** 2) & (d2 <= 1.5 ** 2)]
+        if len(steps) < 2:
+            continue
+        v1 = steps[rng.randrange(len(steps))]
+        v2 = steps[rng.randrange(len(steps))]
+        if tuple(v1) == tuple(v2) or float(xtal._gdot(gram, (v1 + v2)[None, :])[0]) * s2 < 2.3 ** 2:
+            continue
+        k = rng.randint(20, 26)
+        p = np.array([n - 1 - rng.randint(0, 3), rng.randrange(n), rng.randint(0, 3)], dtype=np.int64)
+        pts = [p]
+        for i in range(1, k):
+            pts.append(pts[-1] + (v1 if i % 2 else v2))
+        asym = [{"z": 6, "p": [int(x) for x in q], "occ": 12, "label": "C%d" % (i + 1)} for i, q in enumerate(pts)]
+        ops = row["ops"]
+        allp = [xtal.apply_grid(c, s["p"], n) for s in asym for c in ops]
+        if len(set(allp)) != len(allp):
+            continue
+        uc = np.array(allp, dtype=np.int64)
+        cells = np.array([(a, b, c) for a in range(-8, 9) for b in (-1, 0, 1) for c in (-1, 0, 1)], dtype=np.int64) * n
+        ok = True
+        own = {tuple(int(x) for x in q): i for i, q in enumerate(pts)}
+        for i, q in enumerate(pts):
+            base = (q // n) * n
+            img = uc[:, None, :] + cells[None, :, :] + base[None, None, :]
+            dd = xtal._gdot(gram, img - q[None, None, :]) * s2
+            for bi, ci in np.argwhere(dd < 2.6 ** 2):
+                j = own.get(tuple(int(x) for x in img[bi, ci]))
+                if j is None or abs(j - i) > 1:
+                    ok = False
+                    break
+            if not ok:
+                break
+        if not ok:
+            continue
+        if rng.random() < 0.3:
+            asym = list(reversed(asym))                 # listed from the other end
+            bonds = [[k - i, k - i + 1] for i in range(1, k)]
+        else:
+            bonds = [[i, i + 1] for i in range(1, k)]
+        for i, s in enumerate(asym):
+            s["label"] = "C%d" % (i + 1)
+        return {"number": row["number"], "choice": row["choice"], "n": n, "gram": gram, "u": u, "u2m": u2m, "asym": asym,
+                "mols": [list(range(1, k + 1))], "bonds": bonds, "route": "params", "bond_tolerance": 0.4,
+                "src": "chain over several cell lengths"}
+    return None
+
+
 def gen(args):
     import random
     row, seed, nmols, sizes = args
     rng = random.Random(seed)
+    if nmols == "chain":
+        rec = gen_chain(rng, row)
+        return rec if rec is not None else {"__none__": True, "meta": {}}
     if nmols == "switched":
         # used in hexagonal axes, then switched in place to rhombohedral axes (see xtal.switched_recipe)
         pq = (rng.randint(1, 6), rng.randint(1, 12))
@@ -167,6 +249,9 @@ def make_recipes(ctx, rows, per_setting):
         jobs.append((small[(j * 37 + ctx.seed) % len(small)], ctx.seed * 19 + 6000 + j, "heavy", (2, 3) if j % 3 else (2, 3, 4)))
     for j in range(ctx.pick(40, 1200)):
         jobs.append((small[(j * 41 + ctx.seed) % len(small)], ctx.seed * 29 + 8000 + j, "stretched", (2, 3) if j % 2 else (2, 3, 4)))
+    tri = [r for r in rows if r["number"] <= 2]
+    for j in range(ctx.pick(16, 300)):
+        jobs.append((tri[j % 2], ctx.seed * 37 + 11000 + j, "chain", ()))
     obl = [r for r in rows if r["number"] <= 15 or (r["number"] in (146, 148, 155, 160, 161, 166, 167) and r["choice"] == "R")]
     obl = obl + [r for r in obl if r["number"] <= 2] * 30 + [r for r in obl if r["number"] >= 146] * 4     # half of them triclinic
     for j in range(ctx.pick(120, 3000)):
